@@ -20,8 +20,8 @@ claim('C14', 'other', 'contract-based deductive verification on an abstract heap
 claim('C15', 'other', 'contract-based deductive verification of the three-valued operator tables (monotonicity/totality VCs, fold induction); bounded stand-in for circuit-level evaluation',
       'Every operator is proved monotone w.r.t. the information order and total on total arguments for all argument values; n-ary operators are proved to be folds of their binary case for every arity; '
       'the totality clause is proved at circuit level for every well-formed circuit: under a total Boolean assignment evaluate_full_circuit leaves no gate Undefined and evaluate_circuit leaves no requested output Undefined (the C01 loop invariants). '
-      'Soundness at circuit level is proved for evaluate_full_circuit: for every well-formed circuit, every PARTIAL assignment (inputs missing or Undefined) and every completion of it, each returned value is Undefined or equals the value under the completion. '
-      'Monotonicity in the assignment at circuit level and the stack-based evaluate_circuit under partial assignments are checked by the bounded stand-in over all 3^n partial assignments of enumerated circuits.',
+      'Soundness at circuit level is proved for evaluate_full_circuit and for the stack-based evaluate_circuit: for every well-formed circuit, every PARTIAL assignment (inputs missing or Undefined) and every completion of it, each returned value is Undefined or equals the value under the completion. '
+      'Monotonicity in the assignment at circuit level is checked by the bounded stand-in over all 3^n partial assignments of enumerated circuits.',
       T_ASSUME + 'Background lemma: folds of monotone steps are monotone.', 'DESIGN.md §6 C15')
 NA['C02'] = 'no deductive obligation built yet for this property in this build (a bounded stand-in driver exists under vlib/bounded but is not registered, because a bounded-only check would be a different technique)'
 NA['C03'] = 'no deductive obligation built yet for this property in this build (a bounded stand-in driver exists under vlib/bounded but is not registered, because a bounded-only check would be a different technique)'
